@@ -261,3 +261,20 @@ proof!(c10_length_literal_in_cmp, 8, {
     forget(r);
     forget(cmp);
 });
+
+// count() counts nodes, not distinct nodes: a node selected twice counts twice
+// (`count(@[0,0])`, `count(@[0,-1])` on a one-element array). Nodelist [n0, n0, n1] with the
+// paths a real evaluation would report.
+proof!(c10_count_dup, 6, {
+    let root = Mini::Null;
+    let nodes = [Mini::Int(kani::any()), Mini::Bool(kani::any())];
+    let mut buf: [MaybeUninit<Pointer<Mini>>; 4] = [MaybeUninit::uninit(), MaybeUninit::uninit(), MaybeUninit::uninit(), MaybeUninit::uninit()];
+    buf[0].write(Pointer::new(&nodes[0], String::from("$[0]")));
+    buf[1].write(Pointer::new(&nodes[0], String::from("$[0]")));
+    buf[2].write(Pointer::new(&nodes[1], String::from("$[1]")));
+    let v = unsafe { Vec::from_raw_parts(buf.as_mut_ptr() as *mut Pointer<Mini>, 3, 4) };
+    let r = count(State::data(&root, Data::Refs(v)));
+    assert!(as_int(&r) == Some(3), "count must count a node that was selected twice twice");
+    kani::cover!(true, "end reached");
+    forget(r);
+});
